@@ -202,3 +202,67 @@ func VerifC19Table() {
 		"an index builtin reached an internal panic on a malformed table ('panic caught' report)")
 	rt.Assert(rt.RecoveredPanics() == 0, "murex recovered an internal panic while indexing a malformed table")
 }
+
+// ---- expression statements on typed variables ----
+
+var (
+	verifDecls = []string{
+		"", "set int v = 5", "set int v = 0", "set num v = 5", "set float v = 1.5", "set str v = abc", "set bool v = true",
+		"v = %[1,2]", "v = %{a:1}", "set int v = 5; $v++", "global int v = 7", "set json v = [1]", "v = 3",
+	}
+	verifOps = []string{
+		"v += R", "v -= R", "v *= R", "v /= R", "v = R", "$v++", "$v--", "v = $v + R", "v = $v / R", "v = $v * R", "v <~ R",
+		"v = $v % R", "v = R ?? $v", "v = $v == R", "v = $v > R", "v = $v ~~ R", "v = R[$v]", "v = $v.R", "v = $v || R", "v = -$v",
+	}
+	verifRhs = []string{"2", "0", "-1", "1.5", "'x'", "true", "%[1]", "$v", "null", "", "%{a:2}", "99999999999999999999"}
+)
+
+// VerifC19Assign: `<declaration of v>; <expression statement on v>; out done`: every combination of
+// a typed (or undefined) variable, an assignment / arithmetic / comparison statement and a
+// right-hand side. Type mismatches must come back as errors: no crash, no hang.
+func VerifC19Assign() {
+	mx.Init()
+	pick := func(name string, pool []string, param string) string {
+		k := rt.Param(param)
+		if k > len(pool) {
+			k = len(pool)
+		}
+		return pool[rt.Choice(name, k)]
+	}
+	decl := pick("decl", verifDecls, "decls")
+	op := pick("op", verifOps, "exprs")
+	rhs := pick("rhs", verifRhs, "rhs")
+	block := ""
+	if decl != "" {
+		block = decl + "; "
+	}
+	block += strings.Replace(op, "R", rhs, 1) + "; out done"
+	rt.Note("block=" + block)
+
+	var crashLog *os.File
+	savedStderr := os.Stderr
+	if !rt.Symbolic() {
+		if f, err := os.CreateTemp("", "verif-c19"); err == nil {
+			crashLog = f
+			os.Stderr = f
+		}
+	}
+	stdout, stderr, _, err := mx.Run(block)
+	os.Stderr = savedStderr
+	rt.Reach("assign-returned")
+	crashed := false
+	if crashLog != nil {
+		b, _ := os.ReadFile(crashLog.Name())
+		crashLog.Close()
+		os.Remove(crashLog.Name())
+		crashed = strings.Contains(string(b), "Murex has crashed")
+	}
+	rt.Assert(!crashed, "the crash handler reported 'Murex has crashed'")
+	if err != nil {
+		return
+	}
+	rt.Assert(!strings.Contains(stderr, "panic caught") && !strings.Contains(stdout, "panic caught"),
+		"an expression statement reached an internal panic ('panic caught' report)")
+	// (a panic that a builtin recovers itself and turns into an ordinary error message - alter.Merge
+	// does that for type mismatches - is not a crash by the statement: not asserted here)
+}
